@@ -6,8 +6,10 @@
 //
 // casefile for seq/full:
 //   line 1     universe <tok> <tok> ...      tok = m:<name> | c:<name> | v:<name> | u:<name> | r   (slot i = i-th token)
+//   then       setup <name> <op>;<op>;...    (any number) named set-up prefixes
 //   other      <op>;<op>;...                 ops in the syntax of harness/common/script.hpp
-//              a case may start with  `@<n>;`  : the first n ops are set-up (executed, not reported)
+//              a case may start with  `@<n>;`  : the first n ops are set-up (executed, not reported),
+//              or with `@<name>;` : the named set-up is executed first
 //
 // After EVERY op the driver evaluates the property's own oracle on the real objects through public getters
 // (wfCheck: every listed child names the lister as parent, nothing listed twice or by two listers, parent chains
@@ -30,6 +32,7 @@
 using namespace verif;
 
 static std::vector<std::string> gUniverse;
+static std::map<std::string, std::vector<std::string>> gSetups; // named set-up prefixes: header lines `setup <name> <op>;<op>;...`
 
 static void buildUniverse(Interp &in)
 {
@@ -178,7 +181,17 @@ static std::string runSeq(const std::string &line, bool full)
     size_t setup = 0;
     size_t first = 0;
     if (!ops.empty() && !ops[0].empty() && ops[0][0] == '@') {
-        setup = size_t(atoi(ops[0].c_str() + 1));
+        std::string tag = ops[0].substr(1);
+        auto it = gSetups.find(tag);
+        if (it != gSetups.end()) {
+            for (const auto &o : it->second) {
+                if (!o.empty()) {
+                    in.exec(o);
+                }
+            }
+        } else {
+            setup = size_t(atoi(tag.c_str()));
+        }
         first = 1;
     }
     std::string out;
@@ -240,7 +253,15 @@ int main(int argc, char **argv)
         auto t = splitws(lines[0], ' ');
         gUniverse.assign(t.begin() + 1, t.end());
     }
-    std::vector<std::string> cases(lines.begin() + 1, lines.end());
+    size_t firstCase = 1;
+    while (firstCase < lines.size() && lines[firstCase].rfind("setup ", 0) == 0) {
+        auto sp = lines[firstCase].find(' ', 6);
+        if (sp != std::string::npos) {
+            gSetups[lines[firstCase].substr(6, sp - 6)] = splitws(lines[firstCase].substr(sp + 1), ';');
+        }
+        ++firstCase;
+    }
+    std::vector<std::string> cases(lines.begin() + long(firstCase), lines.end());
     bool full = mode == "full";
     return runCases(cases, [full](const std::string &c) { return runSeq(c, full); }, 20, 16);
 }
